@@ -103,6 +103,11 @@ func (sf *Snowflake) Next() (int64, error) {
 		if sf.seq > MaxSeqID {
 			sf.seq = 0
 			currentTs = waitUntilNextTimeUnit(currentTs)
+			if currentTs > MaxTimeUnits {
+				sf.seq = MaxSeqID // nothing was issued in the new unit
+				log.Printf("Snowflake: time unit overflow")
+				return 0, ErrTimeUnitOverflow
+			}
 		}
 	} else {
 		sf.seq = 0
